@@ -1026,8 +1026,13 @@ class Facts:
 
     @staticmethod
     def load(path):
+        from . import canon_names
         with open(path) as f:
-            return Facts(json.load(f), path)
+            j = json.load(f)
+        j, ren = canon_names.canonicalise(j)   # private helpers under the keys the rules use, whatever they are called
+        fx = Facts(j, path)
+        fx.renamed = ren
+        return fx
 
     def body(self, key):
         if key not in self.bodies:
